@@ -650,6 +650,10 @@ func (p *parser) args() ([]Expr, error) {
 }
 
 func (p *parser) primary() (Expr, error) {
+	if pk := p.peek(); pk.k == tIdent && (pk.s == "forall" || pk.s == "exists") {
+		// a quantifier in operand position extends as far to the right as possible
+		return p.expr()
+	}
 	t := p.next()
 	switch t.k {
 	case tInt:
